@@ -215,3 +215,32 @@ func TestC04FairOrder(t *testing.T) {
 	runProperty(t, "C04", "schedsim-fair-order",
 		schedRuleCommon+"single predeclared queue, invocation trees of depth 0-3 over 6 invocation paths, priorities from {-200,-100,0,1,100,MaxInt32,MinInt32}, expected durations from the scripted analyzer, stickiness limit lists of length 0-3, 1-4 protocol-following workers that report completion and ask for work in separate calls, clock advances of 1ns-45s between events. Oracle: an independent reference model of the documented policy computes, from the queue contents before each request, the SET of operations that may be handed out (direct operations by priority/longest expected duration/oldest; else child with lowest (executing+1)*2^(priority/100), exact ties to the least recently served, sticky invocation wins a tie only inside its per-level window); the task handed out must be in it; a task handed to a blocked worker must go to one sharing the longest invocation prefix with it; no task stays queued while an undrained worker is blocked. Non-trivial: a decision among >=2 queued tasks; labelled sub-classes: singleton acceptable set, nested depth>=2, stickiness retained at level 1/2; distinct by script hash", p)
 }
+
+func TestC04StickinessWindows(t *testing.T) {
+	ops := []string{
+		"execute", "execute", "execute", "execute",
+		"fairPick", "fairPick", "fairPick",
+		"fairComplete", "fairComplete",
+		"fairAdvance", "fairAdvance", "fairAdvance",
+	}
+	p := &profile{
+		name: "C04s", ops: ops, minSteps: 12, maxSteps: 70, instances: []string{""},
+		queues: func(rt *rapid.T) []queueSpec {
+			stick := rapid.SampledFrom([][]int{{100, 30}, {30, 100}, {60, 20}, {20, 20, 20}, {40}}).Draw(rt, "stickiness")
+			return []queueSpec{{Prefix: "", Platform: 0, Predeclared: true, SizeClasses: []uint32{1}, Stickiness: stick}}
+		},
+		workers: [2]int{2, 4}, actions: [2]int{6, 9}, invDepth: [2]int{1, 3},
+		syncKinds: []string{"auto"}, fair: true, fixedPrio: true,
+		invPaths: []string{"i/p/x", "i/q/x", "i/r/x", "i/p/y", "j/p/x"},
+		nontrivial: func(l labels) bool {
+			for k, v := range l {
+				if v > 0 && (len(k) > 18 && k[:18] == "fair_sticky_window") {
+					return true
+				}
+			}
+			return false
+		},
+	}
+	runProperty(t, "C04", "schedsim-stickiness-windows",
+		schedRuleCommon+"stickiness-focused profile: one queue with stickiness limit lists {[100,30],[30,100],[60,20],[20,20,20],[40]} s, invocation depth 1-3 over paths sharing their first component, equal priorities (so that exact ties are frequent), 2-4 workers, advances of 1ns-45s. Same reference-model oracle as schedsim-fair-order. Non-trivial: a decision in which the sticky invocation tied with a less recently served one, so that the per-level window (inside: sticky wins, expired: least recently served wins) decided; distinct by script hash", p)
+}
